@@ -832,3 +832,122 @@ R.spec(F, "JournalStorageReplayResult.apply_logs", props=["C06", "C01"],
 for _k, _c in list(R.contracts.items()):
     if _k[1].startswith("JournalStorageReplayResult._apply_"):
         _c.no_self_inline = True       # apply_logs is checked against the handlers' contracts, not their bodies
+
+
+# ---------------------------------------------------------------------------------------------------
+# JournalStorage methods: sequential (single client) refinement of the storage contract, against an abstract
+# backend (ghost log g_log: append_logs appends, read_logs(k) returns the records k..).  The replay of the one
+# record the method appended is executed by inlining apply_logs with its loop unrolled once (the obligation
+# `unroll-complete` proves that exactly one record was unread), so every handler precondition (record schema)
+# is discharged where the record is built.
+import optuna.storages.journal._base as _jb  # noqa: E402
+R.classes.update({"BaseJournalBackend": _jb.BaseJournalBackend})
+R.schema("JournalStorage", {"_backend": "BaseJournalBackend", "_replay_result": "JournalStorageReplayResult",
+                            "_thread_lock": "ref[Lock]", "_worker_id_prefix": "str"})
+R.schema("BaseJournalBackend", {"g_log": "list[dict[str, Any]] @ glog"})
+R.guarded["JournalStorage"] = {"lock": "_thread_lock", "fields": ["_replay_result"]}
+JB = "optuna/storages/journal/_base.py"
+R.spec(JB, "BaseJournalBackend.append_logs", trusted=True, types={"logs": "list[dict[str, Any]]"},
+       cases=[case("ok", ensures=[
+           "len(self.g_log) == old(len(self.g_log)) + len(logs)",
+           "implies(len(logs) >= 1, self.g_log[old(len(self.g_log))] is logs[0])",      # ground instance of the next clause
+           "forall(lambda j: implies(old(len(self.g_log)) <= j and j < len(self.g_log), "
+           "self.g_log[j] is logs[j - old(len(self.g_log))]), trigger=self.g_log[j])",
+           "forall(lambda i: implies(0 <= i and i < old(len(self.g_log)), self.g_log[i] is old(self.g_log[i])), trigger=self.g_log[i])"])],
+       modifies=["L:*@glog"], note="assumed backend contract: append_logs appends the records in order (file backend: C07)")
+R.spec(JB, "BaseJournalBackend.read_logs", trusted=True, returns_kind="list[dict[str, Any]]",
+       requires=["0 <= log_number_from", "log_number_from <= len(self.g_log)"],
+       cases=[case("ok", ensures=[
+           "fresh(result)", "len(result) == len(self.g_log) - log_number_from",
+           "implies(len(result) >= 1, result[0] is self.g_log[log_number_from])",       # ground instance of the next clause
+           "forall(lambda i: implies(0 <= i and i < len(result), result[i] is self.g_log[log_number_from + i]), trigger=result[i])"])],
+       note="assumed backend contract: read_logs(k) returns the records k.. in order (JSON round trip value-preserving)")
+
+SYNCED = ["self._replay_result.log_number_read == len(self._backend.g_log)",
+          "self._worker_id_prefix == self._replay_result._worker_id_prefix"]
+JS_INV = [c.replace("(self)", "(self._replay_result)") for c in JINV]
+UNROLL1 = {"JournalStorageReplayResult.apply_logs": {0: loop(unroll_max=1)},
+           "JournalStorage._sync_with_backend": {}, "JournalStorage._write_log": {}}
+JS_MOD = SHARED_MOD + PRIV_MOD + ["F:JournalStorageReplayResult.log_number_read", "L:*@glog", "F:FrozenTrial.*", "F:FrozenStudy.*",
+                                  "D:*@t*", "D:*@fs*", "L:*:list<float>", "L:*:list<enum:StudyDirection>", "G:is_tuple"]
+RR = "self._replay_result"
+JT_MISSING = "not j_has_trial(%s, trial_id)" % RR
+JT_FINISHED = "j_has_trial(%s, trial_id) and finished(j_trial(%s, trial_id).state)" % (RR, RR)
+
+
+def js_method(name, cases, types=None, requires=(), props=("C01", "C03", "C04", "C20"), returns_kind=None):
+    R.spec(F, "JournalStorage." + name, props=list(props), types=types or {}, guarded_by="self._thread_lock",
+           requires=JS_INV + SYNCED + list(requires), cases=cases, ensures_all=JS_INV + SYNCED,
+           inline_callees=UNROLL1, modifies=JS_MOD, returns_kind=returns_kind)
+
+
+js_method("set_trial_state_values", types={"values": "list[float] | None"},
+          requires=["state != TrialState.WAITING"],
+          cases=[
+              case("missing", when=JT_MISSING, raises="KeyError", ensures=["shared_unchanged(%s)" % RR]),
+              case("finished", when=JT_FINISHED, raises="UpdateFinishedTrialError", ensures=["shared_unchanged(%s)" % RR]),
+              # compare-and-set: WAITING -> RUNNING succeeds once; every other claim returns False and changes nothing
+              case("lost", when="state == TrialState.RUNNING and j_trial(%s, trial_id).state != TrialState.WAITING" % RR,
+                   returns="False", ensures=["shared_unchanged(%s)" % RR]),
+              case("ok", returns="True", ensures=[
+                  "j_others_same(%s, trial_id)" % RR,
+                  "j_trial(%s, trial_id).state == state" % RR,
+                  "same_except(j_trial(%s, trial_id), old(j_trial(%s, trial_id)), 'state', '_values', '_datetime_start', 'datetime_complete')" % (RR, RR),
+                  "implies(values is None, j_trial(%s, trial_id)._values is old(j_trial(%s, trial_id)._values))" % (RR, RR),
+                  "implies(values is not None, j_trial(%s, trial_id)._values is not None and len(j_trial(%s, trial_id)._values) == len(values) and "
+                  "forall(lambda i: implies(0 <= i and i < len(values), j_trial(%s, trial_id)._values[i] is values[i])))" % (RR, RR, RR),
+              ]),
+          ])
+
+
+def _js_setter(name, types, changed, ok_ensures, requires=()):
+    js_method(name, types=types, requires=requires, cases=[
+        case("missing", when=JT_MISSING, raises="KeyError", ensures=["shared_unchanged(%s)" % RR]),
+        case("finished", when=JT_FINISHED, raises="UpdateFinishedTrialError", ensures=["shared_unchanged(%s)" % RR]),
+        case("ok", ensures=["j_others_same(%s, trial_id)" % RR,
+                            "same_except(j_trial(%s, trial_id), old(j_trial(%s, trial_id)), %s)" % (RR, RR, ", ".join(repr(c) for c in changed))]
+             + list(ok_ensures))])
+
+
+_js_setter("set_trial_user_attr", {}, ["_user_attrs"], [
+    "key in j_trial(%s, trial_id)._user_attrs and j_trial(%s, trial_id)._user_attrs[key] is value" % (RR, RR),
+    "dict_same_except(j_trial(%s, trial_id)._user_attrs, old(j_trial(%s, trial_id)._user_attrs), key)" % (RR, RR)])
+_js_setter("set_trial_system_attr", {}, ["_system_attrs"], [
+    "key in j_trial(%s, trial_id)._system_attrs and j_trial(%s, trial_id)._system_attrs[key] is value" % (RR, RR),
+    "dict_same_except(j_trial(%s, trial_id)._system_attrs, old(j_trial(%s, trial_id)._system_attrs), key)" % (RR, RR)])
+_js_setter("set_trial_intermediate_value", {}, ["intermediate_values"], [
+    "step in j_trial(%s, trial_id).intermediate_values and j_trial(%s, trial_id).intermediate_values[step] is intermediate_value" % (RR, RR),
+    "dict_same_except(j_trial(%s, trial_id).intermediate_values, old(j_trial(%s, trial_id).intermediate_values), step)" % (RR, RR)])
+
+js_method("delete_study", cases=[
+    case("missing", when="not j_has_study(%s, study_id)" % RR, raises="KeyError", ensures=["shared_unchanged(%s)" % RR]),
+    case("deleted", ensures=[
+        "not j_has_study(%s, study_id)" % RR,
+        "forall(lambda t: j_has_trial(%s, t) == (old(j_has_trial(%s, t)) and old(j_sid_of(%s, t)) != study_id))" % (RR, RR, RR),
+        "forall(lambda t: implies(j_has_trial(%s, t), j_trial(%s, t) is old(j_trial(%s, t))))" % (RR, RR, RR),
+        "j_next_tid(%s) == old(j_next_tid(%s))" % (RR, RR),
+    ])])
+
+js_method("get_trial", returns_kind="FrozenTrial", cases=[
+    case("missing", when=JT_MISSING, raises="KeyError"),
+    case("ok", ensures=["result is j_trial(%s, trial_id)" % RR])] )
+R.contracts[(F, "JournalStorage.get_trial")].ensures_all = JS_INV + SYNCED + ["shared_unchanged(%s)" % RR]
+
+js_method("create_new_trial", types={"template_trial": "FrozenTrial | None"},
+          requires=["template_trial is None", "not snapshot_backend(self._backend)"],
+          cases=[
+              case("missing", when="not j_has_study(%s, study_id)" % RR, raises="KeyError", ensures=["shared_unchanged(%s)" % RR]),
+              case("created", ensures=[
+                  "result == old(j_next_tid(%s))" % RR,
+                  "not old(j_has_trial(%s, result)) and j_has_trial(%s, result) and j_sid_of(%s, result) == study_id" % (RR, RR, RR),
+                  "j_trial(%s, result)._number == old(j_ntrials(%s, study_id))" % (RR, RR),
+                  "j_trial(%s, result).state == TrialState.RUNNING and j_trial(%s, result)._trial_id == result" % (RR, RR),
+                  "len(j_trial(%s, result)._params) == 0 and len(j_trial(%s, result)._user_attrs) == 0" % (RR, RR),
+                  "forall(lambda t: implies(t != result, j_has_trial(%s, t) == old(j_has_trial(%s, t)) and "
+                  "implies(j_has_trial(%s, t), j_trial(%s, t) is old(j_trial(%s, t)))))" % (RR, RR, RR, RR, RR),
+              ])])
+
+
+@R.specfunc()
+def snapshot_backend(eng, st, b):
+    return SV(KBool, uf("dyn_isinstance_BaseJournalSnapshot", z3.IntSort(), z3.BoolSort())(b.term))
